@@ -249,7 +249,7 @@ impl<'a> G<'a> {
         let cands: Vec<Decl> = self.lib.iter().filter(|d| allow_codata && self.rng_ok_codata() || !d.codata).cloned().collect();
         let d = cands[self.rng.below(cands.len())].clone();
         let args: Vec<T> = (0..d.params)
-            .map(|_| if self.rng.pct(70) { T::I } else { self.elems[self.rng.below(self.elems.len())].clone() })
+            .map(|_| if self.rng.pct(70) || d.name == "Stream" { T::I } else { self.elems[self.rng.below(self.elems.len())].clone() })
             .collect();
         T::D(d.name.to_string(), args)
     }
@@ -416,7 +416,7 @@ impl<'a> G<'a> {
         // through a recursive definition is not available here; use head = 0, tail = <same via let>
         // which is not expressible either -> fall back to a stream whose tail is itself via a def
         let _ = t;
-        E::Call(usize::MAX, vec![])
+        E::Call(usize::MAX, vec![E::Lit(self.rng.range(0, 9))])
     }
 
     fn min_data(&mut self, t: &T) -> E {
@@ -843,6 +843,7 @@ fn show(e: &E, names: &dyn Fn(usize) -> String, sigs: &[DefSig], ind: usize) -> 
             format!("(if ({}) {} {rhs} {{\n{pad}  {}\n{pad}}} else {{\n{pad}  {}\n{pad}}})", s(c), ops[*sort], s(a), s(b))
         }
         E::Let(x, t, b, body) => format!("(let {}: {} = {};\n{pad}{})", names(*x), t.show(), s(b), show(body, names, sigs, ind)),
+        E::Call(d, es) if *d == usize::MAX => format!("repeat0({})", es.iter().map(&s).collect::<Vec<_>>().join(", ")),
         E::Call(d, es) => format!("{}({})", sigs[*d].name, es.iter().map(&s).collect::<Vec<_>>().join(", ")),
         E::Ctor(n, es) if es.is_empty() => n.clone(),
         E::Ctor(n, es) => format!("{n}({})", es.iter().map(&s).collect::<Vec<_>>().join(", ")),
@@ -950,6 +951,9 @@ pub fn generate(rng: &mut Rng, cfg: &FunCfg) -> FunProg {
         text_u.push_str(&decl_text(d));
         text_s.push_str(&decl_text(d));
     }
+    let prelude = "\ndef repeat0(x: i64): Stream[i64] {\n  new { head => x, tail => repeat0(x) }\n}\n";
+    text_u.push_str(prelude);
+    text_s.push_str(prelude);
     let mut total = 0;
     for (di, b) in &bodies {
         let sig = &sigs[*di];
@@ -988,10 +992,7 @@ pub fn generate(rng: &mut Rng, cfg: &FunCfg) -> FunProg {
 fn fix_invalid_calls(e: &mut E) {
     match e {
         E::Call(d, es) => {
-            if *d == usize::MAX {
-                *e = E::Lit(0);
-                return;
-            }
+
             es.iter_mut().for_each(fix_invalid_calls);
         }
         E::Lit(_) | E::Var(_) => {}
